@@ -138,11 +138,13 @@ Definition reader_flag (id : Z) (w r : eqos) : bool :=
   if id =? DURABILITY_ID then p_lt (durability_policy_pcmp (q_durability w) (q_durability r))
   else if id =? PRESENTATION_ID then
     p_lt (access_scope_pcmp (p_scope (q_presentation w)) (p_scope (q_presentation r)))
-    || negb (Bool.eqb (p_coherent (q_presentation w)) (p_coherent (q_presentation r)))
-    || negb (Bool.eqb (p_ordered (q_presentation w)) (p_ordered (q_presentation r)))
+    || (p_coherent (q_presentation r) && negb (p_coherent (q_presentation w)))
+    || (p_ordered (q_presentation r) && negb (p_ordered (q_presentation w)))
   else if id =? DEADLINE_ID then p_gt (deadline_policy_pcmp (q_deadline w) (q_deadline r))
   else if id =? LATENCYBUDGET_ID then p_gt (latency_policy_pcmp (q_latency w) (q_latency r))
-  else if id =? LIVELINESS_ID then p_lt (liveliness_policy_pcmp (q_liveliness w) (q_liveliness r))
+  else if id =? LIVELINESS_ID then
+    p_lt (liveliness_kind_pcmp (l_kind (q_liveliness w)) (l_kind (q_liveliness r)))
+    || p_gt (duration_kind_pcmp (l_lease (q_liveliness w)) (l_lease (q_liveliness r)))
   else if id =? RELIABILITY_ID then p_lt (reliability_kind_pcmp (q_reliability w) (q_reliability r))
   else if id =? DESTINATIONORDER_ID then
     p_lt (destination_order_policy_pcmp (q_destination_order w) (q_destination_order r))
@@ -157,11 +159,13 @@ Definition writer_flag (id : Z) (r w : eqos) : bool :=
   if id =? DURABILITY_ID then p_gt (durability_policy_pcmp (q_durability r) (q_durability w))
   else if id =? PRESENTATION_ID then
     p_gt (access_scope_pcmp (p_scope (q_presentation r)) (p_scope (q_presentation w)))
-    || negb (Bool.eqb (p_coherent (q_presentation r)) (p_coherent (q_presentation w)))
-    || negb (Bool.eqb (p_ordered (q_presentation r)) (p_ordered (q_presentation w)))
+    || (p_coherent (q_presentation r) && negb (p_coherent (q_presentation w)))
+    || (p_ordered (q_presentation r) && negb (p_ordered (q_presentation w)))
   else if id =? DEADLINE_ID then p_lt (deadline_policy_pcmp (q_deadline r) (q_deadline w))
   else if id =? LATENCYBUDGET_ID then p_lt (latency_policy_pcmp (q_latency r) (q_latency w))
-  else if id =? LIVELINESS_ID then p_gt (liveliness_policy_pcmp (q_liveliness r) (q_liveliness w))
+  else if id =? LIVELINESS_ID then
+    p_gt (liveliness_kind_pcmp (l_kind (q_liveliness r)) (l_kind (q_liveliness w)))
+    || p_lt (duration_kind_pcmp (l_lease (q_liveliness r)) (l_lease (q_liveliness w)))
   else if id =? RELIABILITY_ID then p_gt (reliability_kind_pcmp (q_reliability r) (q_reliability w))
   else if id =? DESTINATIONORDER_ID then
     p_gt (destination_order_policy_pcmp (q_destination_order r) (q_destination_order w))
@@ -225,7 +229,8 @@ Proof.
     destruct sw, sr, cw, cr, ow, or_; reflexivity.
   - apply dk_pcmp_antisym'.
   - apply dk_pcmp_antisym'.
-  - apply liveliness_pcmp_antisym.
+  - rewrite (dk_pcmp_antisym' (l_lease (q_liveliness w)) (l_lease (q_liveliness r))).
+    destruct (l_kind (q_liveliness w)), (l_kind (q_liveliness r)); reflexivity.
   - destruct (q_reliability w), (q_reliability r); reflexivity.
   - destruct (q_destination_order w), (q_destination_order r); reflexivity.
   - destruct (q_ownership w), (q_ownership r); reflexivity.
@@ -295,35 +300,25 @@ Proof.
 Qed.
 
 (* On every policy, for every pair of normalized QoS: the code flags the policy exactly
-   when the standard does, except inside that policy's known class, where it says the
-   opposite. *)
+   when the standard does. *)
 Lemma reader_flag_spec id w r :
   eqos_normalized w -> eqos_normalized r ->
-  reader_flag id w r = xorb (spec_policy_fails id w r) (known_for id w r).
+  reader_flag id w r = spec_policy_fails id w r.
 Proof.
   intros (Hwd & Hwl & Hwv) (Hrd & Hrl & Hrv).
-  unfold reader_flag, spec_policy_fails, known_for. ids.
-  id_cases id; cbn [Z.eqb Pos.eqb]; rewrite ?Bool.xorb_false_r.
+  unfold reader_flag, spec_policy_fails. ids.
+  id_cases id; cbn [Z.eqb Pos.eqb].
   - unfold durability_policy_pcmp, spec_durability_ok.
     rewrite durability_kind_pcmp_rank, p_lt_cmp. apply ltb_negb_leb.
-  - unfold known_presentation, spec_presentation_ok.
+  - unfold spec_presentation_ok.
     rewrite access_scope_pcmp_rank, p_lt_cmp.
     destruct (q_presentation w) as [sw cw ow], (q_presentation r) as [sr cr or_]; cbn [p_scope p_coherent p_ordered].
     destruct sw, sr, cw, cr, ow, or_; reflexivity.
   - unfold deadline_policy_pcmp, spec_deadline_ok. apply dk_gt_spec; assumption.
   - unfold latency_policy_pcmp, spec_latency_ok. apply dk_gt_spec; assumption.
-  - unfold known_liveliness, spec_liveliness_ok, spec_liveliness_kind_ok, spec_liveliness_lease_ok,
-      liveliness_policy_pcmp, lex.
-    destruct (q_liveliness w) as [kw lw], (q_liveliness r) as [kr lr]; cbn [l_kind l_lease] in *.
-    pose proof (dk_lt_spec lw lr Hwv Hrv) as HL.
-    pose proof (spec_dk_leb_total lw lr) as HT.
-    unfold spec_dk_eqb.
-    destruct kw, kr; cbn [liveliness_kind_pcmp liveliness_rank Z.eqb Z.ltb Z.leb Z.compare Pos.compare Pos.compare_cont
-                          andb orb negb xorb p_lt];
-      rewrite ?Bool.xorb_false_r, ?Bool.xorb_false_l; try reflexivity.
-    all: try (rewrite HL; destruct (spec_dk_leb lw lr), (spec_dk_leb lr lw); cbn; try reflexivity;
-              specialize (HT eq_refl); discriminate HT).
-    all: destruct (spec_dk_leb lw lr); reflexivity.
+  - unfold spec_liveliness_ok, spec_liveliness_kind_ok, spec_liveliness_lease_ok.
+    rewrite liveliness_kind_pcmp_rank, p_lt_cmp, (dk_gt_spec _ _ Hwv Hrv), ltb_negb_leb.
+    rewrite Bool.negb_andb. reflexivity.
   - unfold spec_reliability_ok. rewrite reliability_kind_pcmp_rank, p_lt_cmp. apply ltb_negb_leb.
   - unfold destination_order_policy_pcmp, spec_destination_order_ok.
     rewrite destination_order_kind_pcmp_rank, p_lt_cmp. apply ltb_negb_leb.
@@ -334,7 +329,7 @@ Qed.
 
 Lemma writer_flag_spec id r w :
   eqos_normalized w -> eqos_normalized r ->
-  writer_flag id r w = xorb (spec_policy_fails id w r) (known_for id w r).
+  writer_flag id r w = spec_policy_fails id w r.
 Proof. intros Hw Hr. rewrite <- flags_agree. apply reader_flag_spec; assumption. Qed.
 
 (* ------------------------------------------------------------------ the theorems *)
@@ -363,52 +358,37 @@ Proof.
     apply in_spec_failing in I. rewrite H in I. discriminate I.
 Qed.
 
-Lemma known_for_false id off req :
-  known_rxo off req = false -> known_for id off req = false.
-Proof.
-  unfold known_rxo, known_for. intros H. apply Bool.orb_false_iff in H as [H1 H2].
-  destruct (id =? LIVELINESS_ID); [exact H1|]. destruct (id =? PRESENTATION_ID); [exact H2|reflexivity].
-Qed.
-
-(* the reported list names exactly the failing policies (outside the known classes) *)
+(* the reported list names exactly the failing policies *)
 Theorem reader_reported_policies_exact w r :
-  eqos_normalized w -> eqos_normalized r -> known_rxo w r = false ->
+  eqos_normalized w -> eqos_normalized r ->
   forall id, In id (reader_incompatible w r) <-> spec_policy_fails id w r = true.
 Proof.
-  intros Hw Hr K id. rewrite in_reader_incompatible, (reader_flag_spec id w r Hw Hr).
-  rewrite (known_for_false id w r K), Bool.xorb_false_r. reflexivity.
+  intros Hw Hr id. rewrite in_reader_incompatible, (reader_flag_spec id w r Hw Hr). reflexivity.
 Qed.
 Theorem writer_reported_policies_exact r w :
-  eqos_normalized w -> eqos_normalized r -> known_rxo w r = false ->
+  eqos_normalized w -> eqos_normalized r ->
   forall id, In id (writer_incompatible r w) <-> spec_policy_fails id w r = true.
 Proof.
-  intros Hw Hr K id. rewrite <- both_sides_same_policies. apply reader_reported_policies_exact; assumption.
+  intros Hw Hr id. rewrite <- both_sides_same_policies. apply reader_reported_policies_exact; assumption.
 Qed.
-
-(* full characterisation, known classes included *)
-Theorem reader_reported_policies_characterised w r :
-  eqos_normalized w -> eqos_normalized r ->
-  forall id, In id (reader_incompatible w r) <->
-             xorb (spec_policy_fails id w r) (known_for id w r) = true.
-Proof. intros Hw Hr id. rewrite in_reader_incompatible, (reader_flag_spec id w r Hw Hr). reflexivity. Qed.
 
 Theorem reader_side_eq_spec w r :
-  eqos_normalized w -> eqos_normalized r -> known_rxo w r = false ->
+  eqos_normalized w -> eqos_normalized r ->
   (reader_incompatible w r = [] <-> dds_rxo w r = true).
 Proof.
-  intros Hw Hr K. rewrite nil_iff_no_member, dds_rxo_true_iff. split; intros H id; specialize (H id).
-  - rewrite (reader_reported_policies_exact w r Hw Hr K id) in H.
+  intros Hw Hr. rewrite nil_iff_no_member, dds_rxo_true_iff. split; intros H id; specialize (H id).
+  - rewrite (reader_reported_policies_exact w r Hw Hr id) in H.
     destruct (spec_policy_fails id w r); [exfalso; apply H|]; reflexivity.
-  - rewrite (reader_reported_policies_exact w r Hw Hr K id), H. discriminate.
+  - rewrite (reader_reported_policies_exact w r Hw Hr id), H. discriminate.
 Qed.
 Theorem writer_side_eq_spec r w :
-  eqos_normalized w -> eqos_normalized r -> known_rxo w r = false ->
+  eqos_normalized w -> eqos_normalized r ->
   (writer_incompatible r w = [] <-> dds_rxo w r = true).
 Proof.
-  intros Hw Hr K. rewrite <- both_sides_same_verdict. apply reader_side_eq_spec; assumption.
+  intros Hw Hr. rewrite <- both_sides_same_verdict. apply reader_side_eq_spec; assumption.
 Qed.
 
-(* ------------------------------------------------------------------ the classes are real *)
+(* ------------------------------------------------------------------ regression witnesses of the two fixed defects *)
 Definition qdefault : eqos :=
   mkeqos Volatile (mkpresentation ScopeInstance false false) Infinite (Finite (mkduration 0 0))
          (mkliveliness Automatic Infinite) Reliable ByReceptionTimestamp Shared [].
@@ -420,39 +400,23 @@ Definition with_presentation (q : eqos) (p : presentation_policy) : eqos :=
   mkeqos (q_durability q) p (q_deadline q) (q_latency q) (q_liveliness q) (q_reliability q)
          (q_destination_order q) (q_ownership q) (q_representation q).
 
-(* offered lease 20 s, requested lease 10 s, same kind: the standard says incompatible,
-   both functions return the empty list (the pair is matched) *)
-Lemma liveliness_false_match :
+(* the inputs on which the code before f03d4da / 908a0e8 was wrong, now decided correctly:
+   offered lease 20 s vs requested 10 s (incompatible), 10 s vs 20 s (compatible),
+   coherent_access offered and not requested (compatible) *)
+Example fixed_defects_regression :
+  reader_incompatible (with_lease qdefault Automatic 20) (with_lease qdefault Automatic 10) = [LIVELINESS_ID] /\
+  writer_incompatible (with_lease qdefault Automatic 10) (with_lease qdefault Automatic 20) = [LIVELINESS_ID] /\
+  reader_incompatible (with_lease qdefault Automatic 10) (with_lease qdefault Automatic 20) = [] /\
+  reader_incompatible (with_presentation qdefault (mkpresentation ScopeInstance true false)) qdefault = [] /\
+  writer_incompatible qdefault (with_presentation qdefault (mkpresentation ScopeInstance true false)) = [].
+Proof. repeat split; reflexivity. Qed.
+
+(* the derived lexicographic order of LivelinessQosPolicy, still present in qos_policy.rs,
+   is NOT the standard's compatibility: it must not be used for matching *)
+Lemma derived_liveliness_order_is_not_rxo :
   let w := with_lease qdefault Automatic 20 in let r := with_lease qdefault Automatic 10 in
-  eqos_normalized w /\ eqos_normalized r /\ known_liveliness w r = true /\
-  reader_incompatible w r = [] /\ writer_incompatible r w = [] /\ dds_rxo w r = false.
-Proof. cbv zeta. unfold eqos_normalized, dk_normalized, duration_normalized, NANOS_PER_SEC. cbn. repeat split; lia. Qed.
-
-(* offered lease 10 s, requested lease 20 s, same kind: the standard says compatible,
-   both functions report LIVELINESS *)
-Lemma liveliness_false_incompatibility :
-  let w := with_lease qdefault Automatic 10 in let r := with_lease qdefault Automatic 20 in
-  eqos_normalized w /\ eqos_normalized r /\ known_liveliness w r = true /\
-  reader_incompatible w r = [LIVELINESS_ID] /\ writer_incompatible r w = [LIVELINESS_ID] /\ dds_rxo w r = true.
-Proof. cbv zeta. unfold eqos_normalized, dk_normalized, duration_normalized, NANOS_PER_SEC. cbn. repeat split; lia. Qed.
-
-(* offered coherent_access = true, requested = false: compatible by the standard,
-   reported as PRESENTATION by both functions *)
-Lemma presentation_false_incompatibility :
-  let w := with_presentation qdefault (mkpresentation ScopeInstance true false) in let r := qdefault in
-  eqos_normalized w /\ eqos_normalized r /\ known_presentation w r = true /\
-  reader_incompatible w r = [PRESENTATION_ID] /\ writer_incompatible r w = [PRESENTATION_ID] /\ dds_rxo w r = true.
-Proof. cbv zeta. unfold eqos_normalized, dk_normalized, duration_normalized, NANOS_PER_SEC. cbn. repeat split; lia. Qed.
-
-(* inside a known class the code's verdict on that policy is always the opposite of the
-   standard's: the classes are exact *)
-Lemma known_classes_exact id w r :
-  eqos_normalized w -> eqos_normalized r ->
-  (known_for id w r = true <-> reader_flag id w r <> spec_policy_fails id w r).
-Proof.
-  intros Hw Hr. rewrite (reader_flag_spec id w r Hw Hr).
-  destruct (spec_policy_fails id w r), (known_for id w r); cbn; split; congruence.
-Qed.
+  p_lt (liveliness_policy_pcmp (q_liveliness w) (q_liveliness r)) = false /\ spec_liveliness_ok w r = false.
+Proof. cbv zeta. split; reflexivity. Qed.
 
 (* decidable side conditions are reflected *)
 Lemma dk_normalizedb_true k : dk_normalizedb k = true <-> dk_normalized k.
